@@ -24,7 +24,7 @@ RULE = ('for each generated side-effect-free program/query (stratified programs,
         'sys.unraisablehook, and answer k equal to the reference answer k in every run (= re-run equality). '
         'Non-trivial = program with >= 1 answer; distinct = hash of (program, query, outer bindings)')
 ASSUMPTIONS = ['"afterwards" = after the generator has been finalised (reference dropped / except block left); '
-               'if unbinding needs a gc.collect() it is counted (needed_gc) but accepted',
+               'finalisation is CPython reference counting: a state that only comes back after a gc.collect() is a violation (the unchanged tree never needs one)',
                'reference interpreters A and B agree on the answer sequence',
                'programs contain no assert/retract (side-effect free, as the property states for re-runs)']
 
@@ -255,8 +255,10 @@ class Run:
         self.c['executions'] = self.c.get('executions', 0) + 1
         self.c['variables_checked'] = self.c.get('variables_checked', 0) + len(pre_flags)
         self.c['variables_created_during_runs'] = self.c.get('variables_created_during_runs', 0) + (reg.created - created0)
-        if needed_gc:
-            self.c['needed_gc'] = self.c.get('needed_gc', 0) + 1
+        if needed_gc and not (bound_new or changed or post_snap != pre_snap):
+            # the state came back only after a garbage collection pass: with CPython's reference counting the unchanged
+            # tree restores it at once (measured: never needed), so something keeps the finished query alive
+            return {'kind': 'state_restored_only_after_a_gc_pass', 'detail': {'after': {'mode': mode, 'k': k}}}
         w = {'mode': mode, 'k': k}
         if exc == 'RecursionError' and self.ref_depth > diff.DEPTH_SAFE:
             return 'discard'
